@@ -95,7 +95,8 @@ Inductive aop : Type :=
 | ADocFromRecs (i : nat) (s : option nat)             (* ProvDocument(records=container.get_records()) *)
 | AUpdateBundle (i : nat) (s : option nat) (j : nat) (t : option nat)  (* ProvBundle.update, or ProvDocument.update with a bundle-free argument *)
 | AUpdate (i j : nat) (ms : list (option nat))        (* ProvDocument.update(other): ms says, per bundle of other, which bundle of doc has its identifier *)
-| AAddBundleDoc (i j : nat).                          (* doc.add_bundle(other document, id) *)
+| AAddBundleDoc (i j : nat)                           (* doc.add_bundle(other document, id) *)
+| ACopyTouch (i : nat) (s : option nat) (r : nat).    (* c = record.copy(); c.add_attributes(...): the copy is made for the same bundle and is listed nowhere *)
 
 Definition hdl (w : aworld) (i : nat) : option loc := nth_error (adocs w) i.
 Definition cont (w : aworld) (d : loc) (s : option nat) : option loc :=
@@ -187,6 +188,29 @@ Definition astep (w : aworld) (o : aop) : aworld :=
           end
       | _, _ => w
       end
+  | ACopyTouch i s r =>
+      match hdl w i with
+      | Some d =>
+          match cont w d s with
+          | Some b =>
+              match nth_error (recs_of w b) r with
+              | Some x =>
+                  match aget w x with
+                  | Some (ORec ob _) =>
+                      (* PROV_REC_CLS[...](self._bundle, self.identifier, self.attributes): a new record object for the
+                         same bundle; its names are validated by that bundle's manager — at construction and on every
+                         later add_attributes *)
+                      let c := anext w in
+                      let w1 := bump c (alloc w [ORec ob 0] d) in
+                      match ns_of w ob with Some m => bump m w1 | None => w1 end
+                  | _ => w
+                  end
+              | None => w
+              end
+          | None => w
+          end
+      | None => w
+      end
   end.
 
 Definition aempty : aworld := mkAW [] [] [].
@@ -196,7 +220,8 @@ Definition arun (ops : list aop) : aworld := fold_left astep ops aempty.
 Definition atarget (o : aop) : option nat :=
   match o with
   | ANewDoc | ABuild _ _ | AUnified _ _ _ | AFlattened _ | ADocFromRecs _ _ => None
-  | ANewBundle i | AAddRecs i _ _ | ATouchRec i _ _ | ATouchNs i _ | AUpdateBundle i _ _ _ | AUpdate i _ _ | AAddBundleDoc i _ => Some i
+  | ANewBundle i | AAddRecs i _ _ | ATouchRec i _ _ | ATouchNs i _ | AUpdateBundle i _ _ _ | AUpdate i _ _ | AAddBundleDoc i _
+  | ACopyTouch i _ _ => Some i
   end.
 
 (* ------------------------------------------------------------------ what a document reaches, what is observed *)
